@@ -187,6 +187,30 @@ impl System for Case {
     }
 }
 
+/// rebuild a small-regime case from its description "pdu_len=P pattern=K label=NAME frag_id=F storage=S"
+pub fn case_from_desc(desc: &str) -> Option<Case> {
+    let mut p = 0usize;
+    let mut pat = 0u8;
+    let mut lk = LKS[0];
+    let mut fid = 0u8;
+    let mut st = 0usize;
+    for kv in desc.split(' ') {
+        let (k, v) = kv.split_once('=')?;
+        match k {
+            "pdu_len" => p = v.parse().ok()?,
+            "pattern" => pat = v.parse().ok()?,
+            "label" => lk = *LKS.iter().find(|x| x.name() == v)?,
+            "frag_id" => fid = v.parse().ok()?,
+            "storage" => st = v.parse().ok()?,
+            _ => {}
+        }
+    }
+    let li = LKS.iter().position(|x| *x == lk)?;
+    let mut bufs: Vec<usize> = (0..=p + 24).collect();
+    bufs.extend([4097, 4098, 70000, 100, 1000, 5000, 65535]);
+    Some(Case { pdu: pdu(p, pat), lk, pt: [0x0800u16, 0x86DD, 0xFFFF][(p + li) % 3], frag_id: fid, storage: st, bufs, desc: desc.to_string() })
+}
+
 pub fn run(tier: Tier) -> i32 {
     let rep = Report::new("C02", tier);
     rep.set_rule("for each case (PDU length, content pattern, label kind incl. first fragment replaced by re-use, protocol type, fragment id, storage size) the graph sender-progress x real-receiver under 'offer buffer of size b' is explored to closure: small regime = every PDU length 0..=40 (thorough 0..=96) with the complete buffer alphabet 0..=p+24 plus 4097/4098/70000; large regime = PDUs needing fragmentation (4094..9000; thorough up to the 16-bit limit) with buffers {0..=16, 100, 1000, 4090..=4100, 5000, 65535, 70000}, states keyed by position with the receiver snapshot checked equal to the one determined by the position; every produced packet is fed to the real decap; liveness by a strictly decreasing rank for buffers >= 13; distinct = (call, status, buffer regime)");
